@@ -829,6 +829,19 @@ func execSt(f []string) {
 		panic(err)
 	}
 	opt := &oracle.Option{TxnScope: "global"}
+	// directed: a published record whose arrival is later than the next caller's clock reading (the caller was
+	// descheduled between time.Now() and the CAS): the newer timestamp must keep the later arrival
+	{
+		late := time.Now().Add(time.Hour)
+		oracles.VerifStoreLast(o, base, late)
+		oracles.VerifSetLastTS(o, base+1, "global")
+		a1, _ := oracles.VerifLastArrival(o, "global")
+		oracles.VerifSetLastTS(o, base, "global") // older ts: record untouched
+		a2, _ := oracles.VerifLastArrival(o, "global")
+		lr, _ := o.GetLowResolutionTimestamp(context.Background(), opt)
+		pline("arrival_never_goes_back", !a1.Before(late) && a2.Equal(a1) && lr == base+1, f[1], fmt.Sprint(a1.Sub(late)))
+		oracles.VerifStoreLast(o, base, time.Now())
+	}
 	vals := make([][]uint64, ng)
 	set := map[uint64]bool{base: true}
 	var mx uint64 = base
@@ -853,7 +866,14 @@ func execSt(f []string) {
 		go func() {
 			defer mwg.Done()
 			var prev uint64
+			var prevArr time.Time
 			for {
+				if a, ok := oracles.VerifLastArrival(o, "global"); ok {
+					if a.Before(prevArr) || a.After(time.Now()) {
+						bad.Store(fmt.Sprintf("arrival went back or lies in the future: %v after %v", a, prevArr))
+					}
+					prevArr = a
+				}
 				lr, err := o.GetLowResolutionTimestamp(context.Background(), opt)
 				if err != nil || lr < prev || !set[lr] {
 					bad.Store(fmt.Sprintf("lowres %x after %x (err %v, member %v)", lr, prev, err, set[lr]))
@@ -925,6 +945,37 @@ func execMo(f []string) {
 	pline("mock_expiry_consistent", cons, f[1])
 }
 
+// ---------------------------------------------------------------- class iv: interval record; class sl: stale ts
+func execIv(f []string) {
+	switch f[1] {
+	case "next": // cfg ada lastShortMs lastTick state now req
+		r, a, st := oracles.VerifNextInterval(pi(f[2]), pi(f[3]), pi(f[4]), pi(f[5]), pn(f[6]), pi(f[7]), pi(f[8]))
+		emit(append(append([]string{}, f...), "=>", i(r), i(a), strconv.Itoa(st))...)
+	case "set": // cfg ada new
+		ok, c, a := oracles.VerifSetInterval(pi(f[2]), pi(f[3]), pi(f[4]))
+		emit(append(append([]string{}, f...), "=>", b01(ok), i(c), i(a))...)
+	case "adj": // cfg ada lastShortMs read cur now
+		ls, sent := oracles.VerifAdjust(pi(f[2]), pi(f[3]), pi(f[4]), pu(f[5]), pu(f[6]), pi(f[7]))
+		emit(append(append([]string{}, f...), "=>", i(ls), i(sent))...)
+	}
+}
+func execSl(f []string) { // physOffsetMs(before now, signed) logical arrivalOffsetNs prev
+	tso := oracle.ComposeTS(time.Now().UnixMilli()-pi(f[1]), pi(f[2]))
+	var prev uint64
+	if strings.HasPrefix(f[4], "s") { // relative to the record's physical second (the guard's boundary)
+		d, _ := strconv.Atoi(f[4][1:])
+		prev = uint64(oracle.ExtractPhysical(tso)/1000 + int64(d))
+	} else {
+		prev = pu(f[4])
+	}
+	ts, err, before, arr, after := oracles.VerifStale(tso, pi(f[3]), prev)
+	r := "ok " + u(ts)
+	if err != nil {
+		r = "errprev"
+	}
+	emit("sl", f[1], f[2], f[3], f[4], "=>", r, u(tso), u(prev), i(before), i(arr), i(after))
+}
+
 // ---------------------------------------------------------------- dispatch
 func execLine(line string) {
 	f := strings.Split(line, "\t")
@@ -954,6 +1005,10 @@ func execLine(line string) {
 		execSt(f)
 	case "mo":
 		execMo(f)
+	case "iv":
+		execIv(f)
+	case "sl":
+		execSl(f)
 	}
 }
 
